@@ -1,5 +1,6 @@
 import Mkdb.Proofs.Parse
 import Mkdb.Proofs.Fuel
+import Mkdb.Proofs.SizeBound7
 /-!
 # C09 — the SQL front end never crashes or hangs on any input
 
@@ -64,5 +65,122 @@ theorem C09_unquote_guard (b inner : Bytes) (h : stripQuotes b = some inner) :
       · simp only [h3, ↓reduceIte] at h; cases h
       · simp only [h3, Bool.false_eq_true, ↓reduceIte, Option.some.injEq] at h
         exact h.symm
+
+/-! ## "never exhausts memory": what the front end builds is linear in the input
+
+Common limit of the theorems below: they bound what the MODEL's front end returns (token list,
+AST) and how deep it nests, as functions of the input.  Transient allocations of the Go code are
+not modelled: the scanner's 1024-byte read buffer, the `strings.ToUpper` copy made per token for
+the keyword lookup, the growth slack of `append`, and the error strings (which embed the text of
+one token once - `syntaxErr`, `unexpectedTypeErr`, `strconv.Atoi`'s error - and are wrapped once
+by `Session.ExecQuery`).  Each of these is itself linear in the input, but that is an argument
+about the Go code, not a theorem here. -/
+
+/-- **C09.memory (token count)**: the scanner returns at most one token per input rune (a byte
+order mark, white space and comments yield none; an unterminated comment, at least two runes
+long, yields the single ILLEGAL token).  No constant is needed: the bound is `input.length`.
+Limit: bounds the token list of the model, not the Go scanner's buffer. -/
+theorem C09_token_count_linear (input : Input) (ts : List Token) (h : scanSQL input = .ok ts) :
+    ts.length ≤ input.length := scanSQL_count input ts h
+
+/-- non-vacuity and tightness: `a,b,c` is 5 runes and 5 tokens -/
+example : ∃ ts, scanSQL inCommas = .ok ts ∧ ts.length = 5 ∧ inCommas.length = 5 :=
+  ⟨_, rfl, rfl, rfl⟩
+
+/-- **C09.memory (token text)**: the text bytes of all tokens together are at most the source
+bytes of all input runes plus 2: every rune's bytes go to at most one token, quote stripping
+only removes bytes, and the 2 is the fixed text `/*` of the ILLEGAL token that stands for an
+unterminated comment.  (`inBytes` sums `Rune.bytes`; the model does not force the two runes of
+`/*` to carry bytes, hence the constant - see the examples.)  Limit: the per-token upper-case
+copy made for the keyword lookup is transient and not modelled. -/
+theorem C09_token_text_linear (input : Input) (ts : List Token) (h : scanSQL input = .ok ts) :
+    textBytes ts ≤ inBytes input + 2 := scanSQL_text input ts h
+
+/-- non-vacuity: `SELECT a` has 8 source bytes, its two tokens 7 text bytes -/
+example : ∃ ts, scanSQL inSelectA = .ok ts ∧ textBytes ts = 7 ∧ inBytes inSelectA = 8 :=
+  ⟨_, rfl, rfl, rfl⟩
+/-- `/*` as real ASCII runes: 2 source bytes, one ILLEGAL token of 2 text bytes -/
+example : ∃ ts, scanSQL inOpenComment = .ok ts ∧ textBytes ts = 2 ∧ inBytes inOpenComment = 2 :=
+  ⟨_, rfl, rfl, rfl⟩
+/-- tightness of the constant over ALL model inputs: runes `/`, `*` without source bytes give 2
+text bytes from 0 source bytes -/
+example : ∃ ts, scanSQL inOpenCommentNoBytes = .ok ts ∧ textBytes ts = 2 ∧
+    inBytes inOpenCommentNoBytes = 0 := ⟨_, rfl, rfl, rfl⟩
+
+/-- **C09.memory (the parser only moves forward)**: when `parseStmt` succeeds, the token list
+it hands back is a suffix of the one it was given - whatever the fuel. -/
+theorem C09_parser_consumes (f : Nat) (ts : List Token) (s : Stmt) (rest : List Token)
+    (h : parseStmt f ts = .ok s rest) : ∃ pre, ts = pre ++ rest := by
+  obtain ⟨pre, e, _⟩ := parseStmt_size f ts s rest h
+  exact ⟨pre, e⟩
+
+example : parseStmt 4 tkSelectA = .ok stSelectA [] := by rfl
+
+/-- **C09.memory (AST size)**: the statement `parseStmt` returns has size at most
+`3 * (tokens consumed) + (text bytes of the tokens consumed) + 9`, where `Stmt.size` counts every
+constructor, every scalar field (an INT literal is one word: `atoi` bounds it by int64), every
+list cell and every text byte of the AST.  Whatever the fuel.  Limit: a bound on the returned
+value of the model; the Go parser's intermediate slices (`append` growth) and its error values
+are not modelled. -/
+theorem C09_ast_size_linear (f : Nat) (ts : List Token) (s : Stmt) (rest : List Token)
+    (h : parseStmt f ts = .ok s rest) :
+    ∃ pre, ts = pre ++ rest ∧ s.size ≤ 3 * pre.length + textBytes pre + 9 :=
+  parseStmt_size f ts s rest h
+
+/-- non-vacuity: `SELECT a` (2 tokens, 7 text bytes) gives an AST of size 16; the bound is 22 -/
+example : parseStmt 4 tkSelectA = .ok stSelectA [] ∧ stSelectA.size = 16 ∧
+    3 * tkSelectA.length + textBytes tkSelectA + 9 = 22 := ⟨by rfl, rfl, rfl⟩
+/-- tightness: when the keyword token carries no text the bound is attained exactly (16 = 16) -/
+example : parseStmt 4 tkSelectA0 = .ok stSelectA [] ∧ stSelectA.size = 16 ∧
+    3 * tkSelectA0.length + textBytes tkSelectA0 + 9 = 16 := ⟨by rfl, rfl, rfl⟩
+
+/-- **C09.memory (output linear in the input)**: the statement `parseSQL` returns has size at
+most `3 * (number of input runes) + (source bytes of the input) + 11`.  Together with
+`C09_total` (an error value is one of nine constants in the model): everything the model's
+front end returns is linear in its input.  Limit: see the section comment - transient Go
+allocations (read buffer, upper-case copies, error strings) are outside the model. -/
+theorem C09_output_linear (input : Input) (s : Stmt) (h : parseSQL input = .ok s) :
+    s.size ≤ 3 * input.length + inBytes input + 11 := parseSQL_size input s h
+
+/-- non-vacuity: `SELECT a` (8 runes, 8 bytes): size 16, bound 43 -/
+example : parseSQL inSelectA = .ok stSelectA ∧ stSelectA.size = 16 ∧
+    3 * inSelectA.length + inBytes inSelectA + 11 = 43 := ⟨by rfl, rfl, rfl⟩
+/-- tightness within a factor 2: `SELECT a,a,a,a` (14 runes, 14 bytes): size 37, bound 67; every
+further `,a` adds 7 to the size and 8 to the bound -/
+example : sizeOfParse inSelectAAAA = 37 ∧
+    3 * inSelectAAAA.length + inBytes inSelectAAAA + 11 = 67 := ⟨by rfl, rfl⟩
+
+/-- **C09.memory (nesting depth of one condition)**: a condition tree returned by `orCond`
+(`p.OrCondition()`) is nested at most as deep as the number of tokens it was parsed from. -/
+theorem C09_cond_depth_linear (f : Nat) (ts : List Token) (c : Cond) (rest : List Token)
+    (h : orCond f ts = .ok c rest) : ∃ pre, ts = pre ++ rest ∧ c.depth ≤ pre.length :=
+  orCond_depth f ts c rest h
+
+example : ∃ c, orCond 8 (tkSelectOr.drop 1) = .ok c [] ∧ c.depth = 3 := ⟨_, by rfl, rfl⟩
+
+/-- **C09.memory (recursion depth)**: the deepest condition tree anywhere in the statement
+`parseStmt` returns (select list, JOIN ... ON, WHERE) is nested at most as deep as the number
+of tokens consumed; for `parseSQL`, at most the number of input runes (`C09_parse_depth_input`).
+This depth is what the Go stack pays: `OrCondition` / `AndCondition` call themselves once per
+`OR` / `AND`, and the evaluator later recurses over the same tree.  Limit: the theorem bounds
+the depth, it does not model the Go stack; the C09 / C18 claims of the checks are limited to
+inputs whose nesting the Go stack holds (the runtime's default limit is 1 GB on 64-bit
+platforms; exceeding it is a fatal error, not a recoverable panic). -/
+theorem C09_recursion_depth_linear (f : Nat) (ts : List Token) (s : Stmt) (rest : List Token)
+    (h : parseStmt f ts = .ok s rest) : ∃ pre, ts = pre ++ rest ∧ s.condDepth ≤ pre.length :=
+  parseStmt_condDepth f ts s rest h
+
+/-- non-vacuity and tightness within a factor 2: `SELECT a OR a OR a` consumes 6 tokens and
+nests 3 deep; every further `OR a` adds 2 tokens and 1 level -/
+example : ∃ s, parseStmt 8 tkSelectOr = .ok s [] ∧ s.condDepth = 3 ∧ tkSelectOr.length = 6 :=
+  ⟨_, by rfl, rfl, rfl⟩
+
+/-- **C09.memory (recursion depth, end to end)**: the condition depth of the statement
+`parseSQL` returns is at most the number of input runes.  Same limit as
+`C09_recursion_depth_linear`. -/
+theorem C09_parse_depth_input (input : Input) (s : Stmt) (h : parseSQL input = .ok s) :
+    s.condDepth ≤ input.length := parseSQL_condDepth input s h
+
+example : depthOfParse inSelectOr = 3 ∧ inSelectOr.length = 18 := ⟨by rfl, rfl⟩
 
 end Mkdb.Sql
